@@ -195,6 +195,9 @@ func flatten(out map[string]string, prefix string, m protoreflect.Message) {
 }
 
 func canonField(m protoreflect.Message, fd protoreflect.FieldDescriptor) string {
+	if !m.Has(fd) {
+		return ""
+	}
 	tmp := m.New()
 	tmp.Set(fd, m.Get(fd))
 	b, err := proto.MarshalOptions{Deterministic: true}.Marshal(tmp.Interface())
